@@ -7,6 +7,10 @@ package main
 
 //@ globalinv Exists: Exists != nil
 
+// The stored record of a machine carries its node and bindings under keys
+// that are always written.
+//@ jsonform [C09] MachineState: node=NodeName, bs=Bs, ...
+
 // Storage.WriteState: success is reported only when a bolt transaction ran
 // and reported success (a Service without storage - nil *Storage - accepts
 // every write: "run without persistence"). It touches nothing in memory. Its
@@ -16,6 +20,12 @@ package main
 //@   logged
 //@   modifies nothing
 //@   ensures[C16] written: s != nil && len(mss) > 0 && err == nil ==> ncalls("extern:(*go.etcd.io/bbolt.DB).Update") == old(ncalls("extern:(*go.etcd.io/bbolt.DB).Update")) + 1 && lastret("extern:(*go.etcd.io/bbolt.DB).Update", err) == nil
+// A state that cannot be serialised is not written: the serialisation error is
+// returned and no transaction runs.
+//@   ensures[C16] unserialisable: ncalls("extern:encoding/json.Marshal") != old(ncalls("extern:encoding/json.Marshal")) && lastret("extern:encoding/json.Marshal", err) != nil
+//@                        ==> err == lastret("extern:encoding/json.Marshal", err) && ncalls("extern:(*go.etcd.io/bbolt.DB).Update") == old(ncalls("extern:(*go.etcd.io/bbolt.DB).Update"))
+//@   loop 0 invariant[C16] serialised: ncalls("extern:encoding/json.Marshal") != old(ncalls("extern:encoding/json.Marshal")) ==> lastret("extern:encoding/json.Marshal", err) == nil
+//@   loop 0 invariant[C16] notyet: ncalls("extern:(*go.etcd.io/bbolt.DB).Update") == old(ncalls("extern:(*go.etcd.io/bbolt.DB).Update"))
 //@   ensures[C16] failed: s != nil && len(mss) > 0 && ncalls("extern:(*go.etcd.io/bbolt.DB).Update") != old(ncalls("extern:(*go.etcd.io/bbolt.DB).Update")) ==> err == lastret("extern:(*go.etcd.io/bbolt.DB).Update", err)
 
 // AddMachine: the machine is in memory afterwards iff it was there before or the write succeeded.
